@@ -281,6 +281,198 @@ def template_tokens(lang: str) -> typing.Set[str]:
     return toks
 
 
+
+# ---- jinja guard scanner, compiler-derived universe of standard names --------------------------------
+C11_HEADERS = ['assert.h', 'complex.h', 'ctype.h', 'errno.h', 'fenv.h', 'float.h', 'inttypes.h', 'iso646.h', 'limits.h', 'locale.h', 'math.h',
+               'setjmp.h', 'signal.h', 'stdalign.h', 'stdarg.h', 'stdatomic.h', 'stdbool.h', 'stddef.h', 'stdint.h', 'stdio.h', 'stdlib.h',
+               'stdnoreturn.h', 'string.h', 'tgmath.h', 'time.h', 'uchar.h', 'wchar.h', 'wctype.h']
+C_KEYWORDS = {'void', 'int', 'char', 'short', 'long', 'float', 'double', 'signed', 'unsigned', 'const', 'volatile', 'struct', 'union', 'enum',
+              'typedef', 'static', 'extern', 'inline', 'return', 'if', 'else', 'for', 'while', 'do', 'switch', 'case', 'default', 'break',
+              'continue', 'goto', 'sizeof', 'restrict', 'register', 'auto'}
+OMIT_GUARD = 'not nunavut.support.omit'
+POD_GUARD = 'nunavut.support.omit'
+FLOAT_GUARD = 'not options.omit_float_serialization_support'
+
+
+def c_universe() -> typing.Dict[str, typing.Set[str]]:
+    """header -> names it makes visible (macros, typedefs, functions), asked of the installed gcc/glibc for -std=c11 (cached per gcc version)"""
+    import json
+    import subprocess
+    ver = subprocess.run(['gcc', '-dumpfullversion'], capture_output=True, text=True).stdout.strip()
+    cache = os.path.join(gen.VERIF, 'build', 'c06_c_universe_%s.json' % ver)
+    try:
+        with open(cache) as f:
+            return {k: set(v) for k, v in json.load(f).items()}
+    except (OSError, ValueError):
+        pass
+    base = subprocess.run(['gcc', '-std=c11', '-dM', '-E', '-x', 'c', '-'], input='', capture_output=True, text=True)
+    b = set(re.findall(r'^#define (\w+)', base.stdout, flags=re.M))
+    out: typing.Dict[str, typing.Set[str]] = {}
+    for h in C11_HEADERS:
+        src = '#include <%s>\n' % h
+        m = subprocess.run(['gcc', '-std=c11', '-dM', '-E', '-x', 'c', '-'], input=src, capture_output=True, text=True)
+        q = subprocess.run(['gcc', '-std=c11', '-E', '-x', 'c', '-'], input=src, capture_output=True, text=True)
+        if m.returncode != 0 or q.returncode != 0:
+            raise Unsupported('gcc cannot preprocess <%s>' % h)
+        txt = re.sub(r'^#.*$', '', q.stdout, flags=re.M)
+        names = set(re.findall(r'^#define (\w+)', m.stdout, flags=re.M)) - b
+        names |= set(re.findall(r'typedef[^;{}]*?\b(\w+)\s*;', txt))
+        names |= set(re.findall(r'\b(\w+)\s*\([^;{}]*\)\s*(?:__attribute__\s*\(\(.*?\)\)\s*)*;', txt))
+        out[h] = {n for n in names if not n.startswith('_') and n not in C_KEYWORDS}
+    os.makedirs(os.path.dirname(cache), exist_ok=True)
+    with open(cache, 'w') as f:
+        json.dump({k: sorted(v) for k, v in out.items()}, f)
+    return out
+
+
+TAG_RE = re.compile(r'\{%-?\s*(\w+)\s*(.*?)\s*-?%\}', re.S)
+
+
+def guarded_text(txt: str) -> typing.List[typing.Tuple[str, typing.Tuple[str, ...]]]:
+    """splits a Jinja template into (rendered-position text, enclosing `if` conditions); `else` negates with a leading '!', `elif` -> '?'.
+    Comments and expressions are removed.  Raises on unbalanced if/endif."""
+    txt = re.sub(r'\{#.*?#\}', '', txt, flags=re.S)
+    out = []
+    stack: typing.List[str] = []
+    pos = 0
+    for m in TAG_RE.finditer(txt):
+        out.append((txt[pos:m.start()], tuple(stack)))
+        pos = m.end()
+        kw, arg = m.group(1), ' '.join(m.group(2).split())
+        if kw == 'if':
+            stack.append(arg)
+        elif kw == 'elif':
+            if not stack:
+                raise Unsupported('elif without if')
+            stack[-1] = '?'
+        elif kw == 'else':
+            # `for ... else` also has an else: only negate when the innermost open block is an if (tracked with a marker)
+            if stack and not stack[-1].startswith('#for'):
+                stack[-1] = '?' if stack[-1] == '?' else ('!' + stack[-1])
+        elif kw == 'endif':
+            if not stack:
+                raise Unsupported('endif without if')
+            stack.pop()
+        elif kw == 'for':
+            stack.append('#for')
+        elif kw == 'endfor':
+            if not stack or not stack[-1].startswith('#for'):
+                raise Unsupported('endfor without for')
+            stack.pop()
+    out.append((txt[pos:], tuple(stack)))
+    if stack:
+        raise Unsupported('unbalanced if/for in template')
+    res = []
+    for t, g in out:
+        t = re.sub(r'\{\{.*?\}\}', ' ', t, flags=re.S)
+        res.append((t, tuple(x for x in g if not x.startswith('#for'))))
+    return res
+
+
+def strip_c(t: str) -> str:
+    t = re.sub(r'"(?:\\.|[^"\\\n])*"', '""', t)
+    t = re.sub(r'//[^\n]*', '', t)
+    return re.sub(r'/\*.*?\*/', '', t, flags=re.S)
+
+
+def c_template_names(univ: typing.Set[str]) -> typing.Dict[str, bool]:
+    """standard name -> True when EVERY occurrence in the C type templates is under `not nunavut.support.omit` (incl. the whole of
+    serialization.j2 / deserialization.j2, which definitions.j2 must import under that guard)"""
+    d = os.path.join(gen.REPO, 'src', 'nunavut', 'lang', 'c', 'templates')
+    res: typing.Dict[str, bool] = {}
+    for f in sorted(os.listdir(d)):
+        if not f.endswith('.j2'):
+            continue
+        txt = open(os.path.join(d, f), encoding='utf-8').read()
+        file_ser = f in ('serialization.j2', 'deserialization.j2')
+        for t, guards in guarded_text(txt):
+            if not file_ser and re.search(r"from\s+'(de)?serialization\.j2'\s+import", t):
+                raise Unsupported('unreachable')  # imports are tags, not text
+            ser_only = file_ser or OMIT_GUARD in guards
+            for tok in set(re.findall(r'\b[A-Za-z_]\w*\b', strip_c(t))):
+                if tok in univ:
+                    res[tok] = res.get(tok, True) and ser_only
+        if not file_ser:
+            # every import of the (de)serialization macros must sit under the omit guard
+            clean = re.sub(r'\{#.*?#\}', '', txt, flags=re.S)
+            stack: typing.List[str] = []
+            for m in TAG_RE.finditer(clean):
+                kw, arg = m.group(1), ' '.join(m.group(2).split())
+                if kw == 'if':
+                    stack.append(arg)
+                elif kw == 'endif' and stack:
+                    stack.pop()
+                elif kw in ('from', 'include', 'import') and re.search(r"(de)?serialization\.j2", arg) and OMIT_GUARD not in stack:
+                    raise Unsupported('%s pulls in %s outside `if not nunavut.support.omit`' % (f, arg))
+    return res
+
+
+def guarded_includes(path: str) -> typing.List[typing.Tuple[str, typing.Tuple[str, ...]]]:
+    """literal `#include <...>` lines of a template with their enclosing if-conditions"""
+    out = []
+    for t, guards in guarded_text(open(path, encoding='utf-8').read()):
+        for m in re.finditer(r'^\s*#\s*include\s+(<[^>\n]+>)', t, flags=re.M):
+            out.append((m.group(1), guards))
+    return out
+
+
+# ---- pins on code that is hand-modelled (Gen/Closure.v direct/extract) ------------------------------------
+DEP_PINS = {
+    '_extract_data_types': {'e68f007e653f5cf2'},
+    '_extract_dependent_types_handle_array_type': {'3900020530e5cf54'},
+    '_extract_dependent_types': {'e87dce9d633663af'},
+}
+# the two known bodies of _build_dependency_list: before 0a19f41 (isinstance(dependant, UnionType) only: quirk) and after (sections unwrapped)
+BUILD_PINS = {'e51031a4df9e12fd': True, '339c31be2b7e3217': False}
+
+
+def dependency_pins() -> bool:
+    """shape-pins nunavut/_dependencies.py (read by no other translator; Closure.direct/extract model it by hand) and returns the LIVE value
+    of the model's q_union switch"""
+    import hashlib
+    mod = gen.parse_repo('src/nunavut/_dependencies.py')
+    seen = {}
+    for n in mod.body:
+        if isinstance(n, ast.ClassDef) and n.name == 'DependencyBuilder':
+            for f in n.body:
+                if isinstance(f, ast.FunctionDef):
+                    body = strip_doc(f.body)
+                    seen[f.name] = hashlib.sha256(ast.dump(ast.Module(body=body, type_ignores=[])).encode()).hexdigest()[:16]
+    for k, ok in DEP_PINS.items():
+        if seen.get(k) not in ok:
+            raise Unsupported('DependencyBuilder.%s changed (pin %s): the hand model Closure.extract must be reviewed' % (k, seen.get(k)))
+    h = seen.get('_build_dependency_list')
+    if h not in BUILD_PINS:
+        raise Unsupported('DependencyBuilder._build_dependency_list changed (pin %s): the hand model Closure.direct must be reviewed' % h)
+    return BUILD_PINS[h]
+
+
+def py_literal_imports() -> typing.List[str]:
+    """modules the Python type template imports literally (rendered position, no expression in the line)"""
+    txt = gen.read_repo('src/nunavut/lang/py/templates/base.j2')
+    mods = []
+    for t, guards in guarded_text(txt):
+        for l in t.splitlines():
+            m = re.match(r'^(?:from\s+([\w.]+)\s+import\s|import\s+([\w.]+)(?:\s+as\s+\w+)?\s*$)', l)
+            if m:
+                mod = m.group(1) or m.group(2)
+                if mod not in mods:
+                    mods.append(mod)
+    if 'nunavut_support' not in mods:
+        raise Unsupported('py base.j2 no longer imports nunavut_support literally')
+    ns = gen.read_repo('src/nunavut/lang/py/templates/Namespace.j2')
+    if 'from {{ t|full_reference_name }} import {{ t|short_reference_name }} as {{ t|short_reference_name }}' not in ns:
+        raise Unsupported('py Namespace.j2 no longer imports `from <full_reference_name> import <short_reference_name>`')
+    pym = gen.read_repo('src/nunavut/lang/py/__init__.py')
+    if 'return ".".join(ns + [language.filter_short_reference_name(t)])' not in pym or 'ns = list(map(functools.partial(filter_id, language), ns_parts[:-1]))' not in pym:
+        raise Unsupported('py filter_full_reference_name changed shape')
+    return mods
+
+
+def c_tbl_angle(tbl):
+    return [(c, '<%s>' % h) for c, h in tbl]
+
+
 def gen_closure() -> typing.Tuple[bool, str]:
     head = gen.HEADER % ('src/nunavut/lang/{c,cpp,py}/__init__.py, lang/_common.py, _namespace.py, lang/properties.yaml, lang/*/support, '
                          'lang/*/templates') + 'From Verif Require Import ClosureBase.\nOpen Scope N_scope.\n\n'
@@ -322,13 +514,72 @@ def gen_closure() -> typing.Tuple[bool, str]:
             rows.append('(%s, (%s, %s))' % (coq_str(std), coq_str(str(o.get('allocator_include', '') or '')), coq_str(str(o.get('variable_array_type_include', '') or ''))))
         parts.append('(* per --language-standard: (allocator_include, variable_array_type_include) after merging options with defaults *)\n'
                      'Definition cpp_option_includes : list (str * (str * str)) :=\n  [%s].' % ';\n   '.join(rows))
-        parts.append('Definition c_support_includes : list str := %s.' % coq_strs(support_includes('c')))
         parts.append('Definition cpp_support_includes : list str := %s.' % coq_strs(support_includes('cpp')))
-        ctoks = template_tokens('c')
-        parts.append('(* standard names (from a fixed universe) that the C type templates mention *)\n'
-                     'Definition c_tmpl_std_names : list str := %s.' % coq_strs([n for n in C_UNIVERSE if n in ctoks]))
+        # -- C: support header includes with their option guard, literal includes of base.j2 with their omit guard
+        sup = guarded_includes(os.path.join(gen.REPO, 'src', 'nunavut', 'lang', 'c', 'support', 'serialization.j2'))
+        for h, g in sup:
+            if any(x not in (FLOAT_GUARD,) for x in g):
+                raise Unsupported('support header include %s under an unknown guard %s' % (h, g))
+        parts.append('(* (only with float serialization support, header) *)\nDefinition c_support_includes : list (bool * str) :=\n  [%s].'
+                     % ';\n   '.join('(%s, %s)' % ('true' if FLOAT_GUARD in g else 'false', coq_str(h)) for h, g in sup))
+        lit = guarded_includes(os.path.join(gen.REPO, 'src', 'nunavut', 'lang', 'c', 'templates', 'base.j2'))
+        rows = []
+        for h, g in lit:
+            if g == ():
+                rows.append('(LAlways, %s)' % coq_str(h))
+            elif g == (POD_GUARD,):
+                rows.append('(LOmitOnly, %s)' % coq_str(h))
+            elif g == (OMIT_GUARD,):
+                rows.append('(LSerOnly, %s)' % coq_str(h))
+            else:
+                raise Unsupported('literal include %s of c/base.j2 under an unknown guard %s' % (h, g))
+        parts.append('(* literal #include lines of c/templates/base.j2 *)\nDefinition c_tmpl_includes : list (lit_guard * str) :=\n  [%s].' % ';\n   '.join(rows))
+        lit = guarded_includes(os.path.join(gen.REPO, 'src', 'nunavut', 'lang', 'cpp', 'templates', 'base.j2'))
+        rows = []
+        for h, g in lit:
+            if g == ():
+                rows.append('(LAlways, %s)' % coq_str(h))
+            elif g == (POD_GUARD,):
+                rows.append('(LOmitOnly, %s)' % coq_str(h))
+            elif g == (OMIT_GUARD,):
+                rows.append('(LSerOnly, %s)' % coq_str(h))
+            else:
+                raise Unsupported('literal include %s of cpp/base.j2 under an unknown guard %s' % (h, g))
+        parts.append('Definition cpp_tmpl_includes : list (lit_guard * str) :=\n  [%s].' % ';\n   '.join(rows))
+        # -- C: every standard name (universe = what gcc's C11 headers make visible) in rendered position of the type templates
+        univ = c_universe()
+        alln = set().union(*univ.values())
+        tn = c_template_names(alln)
+        parts.append('(* (name, used only with serialization support) for every standard name in rendered position of lang/c/templates/*.j2 *)\n'
+                     'Definition c_tmpl_std_names : list (str * bool) :=\n  [%s].'
+                     % ';\n   '.join('(%s, %s)' % (coq_str(n), 'true' if tn[n] else 'false') for n in sorted(tn)))
+        csec = props['nunavut.lang.c']
+        fn = sorted({str(v) for v in list((csec.get('named_types') or {}).values()) + list((csec.get('named_values') or {}).values())} - C_KEYWORDS)
+        cmod = gen.read_repo('src/nunavut/lang/c/__init__.py')
+        if '"{}int{}_t".format' in cmod:
+            fn += ['%sint%d_t' % (u, w) for u in ('', 'u') for w in (8, 16, 32, 64)]
+        else:
+            raise Unsupported('lang/c/__init__.py no longer names integer types "{}int{}_t"')
+        fn = sorted(set(fn))
+        for n in fn:
+            if n not in alln:
+                raise Unsupported('filter-emitted name %s is not a C11 standard name' % n)
+        parts.append('(* names the C filters emit: yaml named_types / named_values and _CFit.to_c_int *)\nDefinition c_filter_names : list str := %s.' % coq_strs(fn))
+        needed = sorted(set(tn) | set(fn))
+        used_headers = sorted({h[1:-1] for _, h in c_tbl_angle(c_tbl)} | {h[1:-1] for h, _ in sup} | {h[1:-1] for h, _ in guarded_includes(
+            os.path.join(gen.REPO, 'src', 'nunavut', 'lang', 'c', 'templates', 'base.j2'))} | {'assert.h', 'stdint.h', 'stdbool.h', 'stddef.h'})
+        rows = []
+        for h in used_headers:
+            if h not in univ:
+                raise Unsupported('header <%s> is not a C11 standard header' % h)
+            rows.append('(%s, %s)' % (coq_str('<%s>' % h), coq_strs([n for n in needed if n in univ[h]])))
+        parts.append('(* which of the needed names each relevant header makes visible, asked of the installed gcc (-std=c11) *)\n'
+                     'Definition c_declares : list (str * list str) :=\n  [%s].' % ';\n   '.join(rows))
         parts.append('(* every std::NAME the C++ type templates mention *)\n'
                      'Definition cpp_tmpl_std_names : list str := %s.' % coq_strs(sorted(template_tokens('cpp'))))
+        parts.append('(* LIVE value of the q_union switch of Closure.direct: true = only a top-level pydsdl.UnionType counts (code before 0a19f41) *)\n'
+                     'Definition q_union_live : bool := %s.' % ('true' if dependency_pins() else 'false'))
+        parts.append('(* modules lang/py/templates/base.j2 imports literally *)\nDefinition py_literal_imports : list str := %s.' % coq_strs(py_literal_imports()))
     except (Unsupported, SyntaxError, OSError, KeyError, yaml.YAMLError) as ex:
         gen.write_if_changed(OUT, head + '(* translator failed closed: %s *)\n' % str(ex).replace('*)', '* )'))
         return False, 'C06 translator failed closed: %s' % ex
